@@ -1663,7 +1663,63 @@ def check_get_function_twice(case):
 NT_VALUE = ("non-trivial = AST depth >= 3 with a non-commutative operator nested in another and >= 1 "
             "judged point")
 
+# =========================================================================================
+# sinc (after missed seed C11-7: the printers wrote sympy's sinc(x) = sin(x)/x as numpy's normalised
+# sinc(x) = sin(pi x)/(pi x)).  The unchanged tree evaluates sinc for scalar arguments only (arrays are a loud
+# ValueError from sympy's conditional printing), so this family is judged with scalars.
+# =========================================================================================
+SINC_FORMS = {
+    "sinc(x)": lambda x, y: np.sinc(x / np.pi),
+    "sinc(2*x) + y": lambda x, y: np.sinc(2 * x / np.pi) + y,
+    "x*sinc(x - y)": lambda x, y: x * np.sinc((x - y) / np.pi),
+    "sinc(x)**2 - sinc(y)": lambda x, y: np.sinc(x / np.pi) ** 2 - np.sinc(y / np.pi),
+    "sinc(x*y)/(1 + y**2)": lambda x, y: np.sinc(x * y / np.pi) / (1 + y ** 2),
+    "exp(-sinc(x + 0.5))": lambda x, y: np.exp(-np.sinc((x + 0.5) / np.pi)),
+}
+
+
+def sinc_cases():
+    return st.fixed_dictionaries({"form": st.sampled_from(sorted(SINC_FORMS)),
+                                  "x": st.sampled_from([0.7, -1.3, 2.0, 3.5, 0.25, -4.0, 1.0]),
+                                  "y": st.sampled_from([0.4, -0.6, 1.5, 2.25, -2.0]),
+                                  "route": st.sampled_from(["call", "get_function:numpy", "get_function:numba", "field"])})
+
+
+def check_sinc(case):
+    form, x, y = case["form"], float(case["x"]), float(case["y"])
+    want = float(SINC_FORMS[form](x, y))
+    route = case["route"]
+    with time_limit(SIMPLIFY_LIMIT):
+        expr = accept(lambda: ScalarExpression(form, signature=["x", "y"]), form, "ScalarExpression")
+    if route == "call":
+        got = run_generated(lambda: expr(x, y), form, "sinc/call")
+    elif route.startswith("get_function"):
+        f = expr.get_function(route.split(":")[1])
+        got = run_generated(lambda: f(x, y), form, "sinc/" + route)
+    else:
+        # ScalarField.from_expression: the point-wise fall-back evaluates cell by cell
+        grid = pde.UnitGrid([3])
+        text = form.replace("y", repr(y))
+        fld = run_generated(lambda: accept(lambda: pde.ScalarField.from_expression(grid, text), text, "from_expression"),
+                            text, "sinc/field")
+        xs = grid.cell_coords[..., 0]
+        wants = np.array([SINC_FORMS[form](float(v), y) for v in xs])
+        if not np.allclose(fld.data, wants, rtol=0, atol=64 * G.EPS * 8):
+            raise Violation(f"from_expression(`{text}`) gave {fld.data.tolist()!r}, the formula (sinc(u) = sin(u)/u) gives "
+                            f"{wants.tolist()!r}", key="sinc:field")
+        return {"nt": True, "labels": ["route:field", f"form:{form}"]}
+    got = complex(got)
+    if abs(got - want) > 64 * G.EPS * 8:
+        raise Violation(f"{route}: `{form}` at x={x}, y={y} gave {got!r}, the formula (sinc(u) = sin(u)/u) gives {want!r}",
+                        key="sinc:" + route.split(":")[0])
+    return {"nt": True, "labels": [f"route:{route}", f"form:{form}"]}
+
+
 SUBCHECKS = [
+    SubCheck("sinc_scalar_arguments", strategy=sinc_cases, check=check_sinc, mode="pure",
+             budget={"quick": 60, "thorough": 400}, shards={"quick": 1, "thorough": 1},
+             rule="expressions with sinc at scalar arguments through __call__, get_function (numpy, numba compiled) and "
+                  "the point-wise fall-back of from_expression; every case is non-trivial"),
     SubCheck("value_numpy",
              strategy=lambda: scalar_cases(G.PROFILE_NUMPY, routes=("call", "call", "get_function", "copy", "kwargs")),
              check=check_value, mode="pure", budget={"quick": 1200, "thorough": 40000},
